@@ -135,6 +135,16 @@ Theorem C02_gmm_diagonal_saliency_em_step_ascent (K' D N : nat) (tiny epsw : R) 
 Proof. intros HN Hs Hw Hsum Hv Hm Hv2. eapply gmm_sal_em_step_ascent; eauto. Qed.
 Print Assumptions C02_gmm_diagonal_saliency_em_step_ascent.
 
+(* the executable whole-loop model of the spherical GMM (Model/GMMLoop.v gmm_fit_sph, compared with
+   GMMTrainer.fit(covariance_type='spherical', iterations=n) on every run) is that iteration too *)
+Theorem C02_gmm_spherical_loop_model_monotone (K' D N : nat) (tiny tinyw : R) (y : nat -> nat -> R) (g0 : list (list R)) (j : nat) :
+  0 < tiny -> (0 < N)%nat -> (0 < D)%nat ->
+  (forall i, (i < j)%nat -> model_guard_sph K' D N tiny y (gmm_fit_sph RO K' D N tiny tinyw (2 * PI) y (S i) g0)) ->
+  mloglik K' D N y (gmm_fit_sph RO K' D N tiny tinyw (2 * PI) y 1 g0)
+  <= mloglik K' D N y (gmm_fit_sph RO K' D N tiny tinyw (2 * PI) y (S j) g0).
+Proof. intros Ht HN HD HG. eapply gmm_fit_sph_monotone; eauto. Qed.
+Print Assumptions C02_gmm_spherical_loop_model_monotone.
+
 (* full-covariance Gaussian (and the matrix part of the cACG surrogate): written in the eigenbasis of Sigma^-1 S - contract of
    the eigen-decomposition: ln det(Sigma^-1 S) = sum ln lam_i, tr(Sigma^-1 S) = sum lam_i, lam_i > 0 - the class part of Q,
    -c/2 (ln det Sigma + tr(Sigma^-1 S)) = -c/2 (ln det S - sum ln lam_i + sum lam_i), is largest at Sigma = S (all lam_i = 1).
